@@ -279,6 +279,11 @@ func c04Gen(g *core.Gen) {
 			d.Depth = decDepth // decProtoGen gives the fault alphabet one step less
 		}
 		g.Emit(&p1Case{Dec: d})
+		// the same with the volume events on the HIGHEST volume (a volume with a higher number than any loaded so far
+		// arrives between two attempts)
+		dl := *d
+		dl.VolLast = true
+		g.Emit(&p1Case{Dec: &dl})
 	})
 	sizesSet := []int{0, 1, 2, 5, 9}
 	maxFiles := 3
